@@ -30,8 +30,27 @@ def oracle_segs(line, out):
         return None if out == "ERR ValueError" else f"minScore<=0 accepted: {out}"
     if out.startswith("ERR"):
         return f"exception {out}"
+    # completeness for the FIRST run (no earlier run can have left anything behind): from the first positive score on, the
+    # running sum until the first break (sum <= 0 or <= maximum - threshold); if its maximum reaches minScore, that run
+    # qualifies and must be the first segment reported
+    first = None
+    i0 = next((k for k, v in enumerate(S) if v > 0), None)
+    if i0 is not None and bs >= 0:
+        acc, best, arg = 0, None, None
+        for k in range(i0, len(S)):
+            acc += S[k]
+            if best is not None and acc <= max(0, best - bs):
+                break
+            if acc <= 0:
+                break
+            if best is None or acc > best:
+                best, arg = acc, k
+        if best is not None and best >= ms:
+            first = (i0, arg + 1, best)
     if out == "E":
-        return None  # (g): single empty segment; completeness is not claimed (stale current segment)
+        if first:
+            return f"(g) the empty segment is returned although the run {first[0]}-{first[1]} qualifies (score {first[2]} >= minScore {ms})"
+        return None  # (g): single empty segment; completeness beyond the first run is not claimed (stale current segment)
     rngs = []
     for t in out.split(" "):
         a, sc = t.split(":")
@@ -39,6 +58,8 @@ def oracle_segs(line, out):
         if "/" in sc:
             return f"(c) segment {i}-{j} is reported with score {sc} (in units of 1/den), which is not the sum of its members"
         rngs.append((int(i), int(j), int(sc)))
+    if first and rngs and (rngs[0][0], rngs[0][1]) != (first[0], first[1]):
+        return f"(g) the first qualifying run {first[0]}-{first[1]} (score {first[2]}) is not the first segment reported ({rngs[0][0]}-{rngs[0][1]})"
     prev_stop = None
     for (i, j, sc) in rngs:
         if not (0 <= i < j <= len(S)):
@@ -658,14 +679,41 @@ def oracle_indelfile(line, out):
     want = sorted(c[4] for c in ins + dels)
     if sorted(ids) != want:
         return "the query ids of the file are not exactly the query ids of the calls found (each once)"
-    by_id = {c[4]: c for c in ins + dels}
+    # one molecule can carry several calls (several breakage places): match the occurrences of each id in the lines
+    # with the calls of that id, one to one, so that every call lies in a line of its type and chromosome that covers it
+    by_id, occ = {}, {}
+    for c in ins + dels:
+        by_id.setdefault(c[4], []).append(c)
     for r in rows:
         for q in r[4].split(","):
-            c = by_id[q]
-            if (c[0], c[1]) != (r[0], r[1]):
-                return "a line mixes types or chromosomes"
-            if not (int(r[2]) <= int(c[2]) and int(c[3]) <= int(r[3])):
-                return "a call's reference interval is not covered by its line"
+            occ.setdefault(q, []).append(r)
+    for q, cs in by_id.items():
+        rs = occ.get(q, [])
+        def fits(c, r):
+            return (c[0], c[1]) == (r[0], r[1]), int(r[2]) <= int(c[2]) and int(c[3]) <= int(r[3])
+        def matching(pred):
+            """maximum bipartite matching calls -> line occurrences (augmenting paths)"""
+            owner = {}
+            def try_(i, seen):
+                for j, r in enumerate(rs):
+                    if j in seen or not pred(cs[i], r):
+                        continue
+                    seen.add(j)
+                    if j not in owner or try_(owner[j], seen):
+                        owner[j] = i
+                        return True
+                return False
+            return sum(1 for i in range(len(cs)) if try_(i, set()))
+        best = None
+        if len(rs) == len(cs):
+            if matching(lambda c, r: all(fits(c, r))) == len(cs):
+                best = "ok"
+            elif matching(lambda c, r: fits(c, r)[0]) == len(cs):
+                best = "typed"
+        if best is None:
+            return "a line mixes types or chromosomes"
+        if best == "typed":
+            return "a call's reference interval is not covered by its line"
     keys = [(int(r[1]), int(r[3])) for r in rows]
     if any(a[0] > b[0] for a, b in zip(keys, keys[1:])):
         return "lines are not ordered by chromosome"
